@@ -8,6 +8,7 @@ import OmbottModel.Drv.Router
 import OmbottModel.Drv.RouteUrl
 import OmbottModel.Drv.Multipart
 import OmbottModel.Drv.Body
+import OmbottModel.Drv.Wsgi
 import OmbottModel.Drv.Forms
 import OmbottModel.Drv.RouterEdit
 import OmbottModel.Drv.TsProps
@@ -39,6 +40,7 @@ def step (st : State) (line : String) : State × String :=
     | "routeurl" => pure? (RouteUrl.handle rest)
     | "mp" => pure? (Multipart.handle rest)
     | "body" => pure? (Body.handle rest)
+    | "wsgi" => pure? (Wsgi.handle rest)
     | "forms" => pure? (Forms.handle rest)
     | "redit" => pure? (RouterEdit.handle rest)
     | "tsprops" => pure? (TsProps.handle rest)
